@@ -17,6 +17,7 @@ Requests of the TFLite writer / reader models (syntax: Model/TfliteText.lean).
 `wreaderr <kind> <model>` the real reader raised <kind>: `same` / `differ model=…`
 `wspec <desc> <model>`    Spec.conforms: does the walked file say what the graph says? `ok` | `bad <n> <kind>|<detail> ~ …`
 `wreadspec <desc>`        Spec.readOk on the description of what the real reader built
+`wdomain <desc>`          Spec.conformsDomainB: is the description in the domain of `conforms_write`? `in` | `out <clause>`
 `wmeta <version> <model> <model>`   Spec.metadataKept source file / written file
 `wloop <desc>`            model only: t1 = write d, t2 = write (read t1); are t1 and t2 the same file up to buffer and operator-code numbering (tensor
                           data / code entries compared through the index), metadata, description and trailing absent operands? `same <n>` |
@@ -128,6 +129,13 @@ def handle : List String → Option String
       | some d, some t => some (showProblems (Spec.conforms d t))
       | none, _ => some "err:bad-desc"
       | _, none => some "err:bad-model"
+    | _ => some "err:bad-request"
+  | "wdomain" :: toks =>
+    match Sx.parseAll toks with
+    | some [dx] =>
+      match decDesc dx with
+      | some d => some (if Spec.conformsDomainB d then "in" else "out " ++ Spec.domainClause d)
+      | none => some "err:bad-desc"
     | _ => some "err:bad-request"
   | "wreadspec" :: toks =>
     match Sx.parseAll toks with
